@@ -13,7 +13,7 @@ ONLY = sys.argv[sys.argv.index("--only") + 1] if "--only" in sys.argv else None
 BASE = "/var/tmp/seedmatrix"
 EXTRA = {"C16-B": ["C12"], "C10-A": ["C01"], "C06-A": ["C01"], "C13-B": ["C09"], "C02-A": ["C03"], "C02-B": ["C03"], "C03-A": ["C02"], "C03-B": ["C02"],
          "C07-A": ["C02"], "C01-B": ["C06"], "C06-B": ["C01"], "C07-R2": ["C02"], "C06-R2": ["C01"], "C12-R2": ["C16"], "C16-R2": ["C12"], "C02-R2": ["C03"],
-         "C03-R2": ["C02"], "C07-R6": ["C11"], "C02-R3": ["C03", "C12"], "C06-R3": ["C09"], "C07-R3": ["C03"], "C06-R8": ["C11"], "C07-R8": ["C02"], "C09-R8": ["C08"], "C04-R10": ["C14"], "C11-R10": ["C14"]}
+         "C03-R2": ["C02"], "C07-R6": ["C11"], "C02-R3": ["C03", "C12"], "C06-R3": ["C09"], "C07-R3": ["C03"], "C06-R8": ["C11"], "C07-R8": ["C02"], "C09-R8": ["C08"], "C04-R10": ["C14"], "C11-R10": ["C14"], "C05-R11": ["C01"], "C06-R11": ["C01"]}
 REVERT = {"F2": ["C01"], "F3": ["C01"], "F4": ["C07"], "F10": ["C07"], "F5": ["C09"], "F16": ["C09"], "F17": ["C09"], "F27": ["C09"], "F29": ["C09"],
           "F7": ["C10"], "F9": ["C10"], "F18": ["C10"], "F19": ["C10"], "F20": ["C18"], "F31": ["C10"], "F21": ["C10"], "F28": ["C10"], "F11": ["C12"], "F22": ["C12"], "F12": ["C16"], "F23": ["C14"], "F24": ["C14"],
           "F26": ["C15"], "F30": ["C15", "C07"], "F13": ["C02"], "F14": ["C02"], "F15": ["C02"]}
